@@ -7,7 +7,9 @@
      "exit"   point, endpoints_open, tasks_alive          after leaving the manager context
      "late"   observer_calls, events_delivered            caused by datagrams / timers of abandoned
               connections after the reset returned (must be 0)
-     "cycles" n, max_endpoints, max_tasks, bound_endpoints, bound_tasks                       *)
+     "cycles" n, max_endpoints, max_tasks, bound_endpoints, bound_tasks
+     "book"   probes, n_orphans (live probe tasks, added at every loop iteration across several tidy
+              passes, that are missing from the task manager's list), alive_after_cancel (TaskBook.tla)   *)
 EXTENDS Integers, Sequences, TLC, Json, IOUtils
 Recs == ndJsonDeserialize(IOEnv.GV_RECS)
 Verdict(r) ==
@@ -17,6 +19,8 @@ Verdict(r) ==
                           ELSE IF Len(r.endpoints_open) > 0 THEN "endpoint-open-after-exit" ELSE "ok"
     [] r.kind = "late" -> IF r.observer_calls > 0 \/ r.events_delivered > 0 THEN "late-effect-of-abandoned-connection" ELSE "ok"
     [] r.kind = "cycles" -> IF r.max_endpoints > r.bound_endpoints \/ r.max_tasks > r.bound_tasks THEN "resources-grow-with-reconnect-cycles" ELSE "ok"
+    [] r.kind = "book" -> IF r.n_orphans > 0 THEN "live-task-missing-from-the-task-list"
+                          ELSE IF r.alive_after_cancel > 0 THEN "cancelled-family-still-has-live-tasks" ELSE "ok"
     [] OTHER -> "unknown-kind"
 Bad == { <<k, Verdict(Recs[k])>> : k \in { k \in 1..Len(Recs) : Verdict(Recs[k]) # "ok" } }
 ASSUME PrintT(<<"GVBAD", Bad, Len(Recs)>>)
